@@ -211,6 +211,21 @@ package build
 //@   modifies nothing
 //@ assume func buildLinks
 //@   modifies nothing
+// Build (C04): the goroutines waiting for this target (WaitForBuild) are released only after the outcome has been
+// recorded in the target's state — Failed before FinishBuild when the build failed — so a dependent that wakes up
+// never sees a failed dependency as still Building (and then builds against it).
+//@ func Build
+//@   requires state != nil && target != nil
+//@   opt nopanic=off
+//@   opt panics=allowed
+//@   opt precall=off
+//@   opt inline=off
+//@   callsite buildTarget trackresult builderr error: result
+//@   callsite buildTarget track laststate core.BuildTargetState: core.Building
+//@   callsite (BuildTarget).SetState track laststate core.BuildTargetState: arg_state
+//@   callsite (BuildTarget).FinishBuild outcome_recorded_before_waiters_are_released [C04]: called("buildTarget") && \
+//@      (builderr != nil ==> laststate == core.Failed) && arg_recv == target
+//@   callsite buildTarget while_marked_building [C04]: called("(BuildTarget).SetState") && arg_target == target
 //@ func buildTarget
 //@   requires state != nil && target != nil
 //@   opt nopanic=off
@@ -240,8 +255,8 @@ package build
 //@ func StoreTargetMetadata
 //@   requires target != nil
 //@   opt nopanic=off
-//@   callsite fs.RemoveAll the_old_record_goes_first [C32]: arg_path == targetBuildMetadataFileName(target) && !called("os.Create")
-//@   callsite os.Create on_a_fresh_inode [C32]: called("fs.RemoveAll") && arg_name == targetBuildMetadataFileName(target)
+//@   callsite fs.RemoveAll the_old_record_goes_first [C32 C02]: arg_path == targetBuildMetadataFileName(target) && !called("os.Create")
+//@   callsite os.Create on_a_fresh_inode [C32 C02]: called("fs.RemoveAll") && arg_name == targetBuildMetadataFileName(target)
 
 // ---------------------------------------------------------------------------------------------
 // Filegroup outputs (C01, C03): (filegroupBuilder).Build
@@ -291,28 +306,57 @@ package build
 //
 //@ func ruleHash
 //@   requires state != nil && target != nil
+//@   opt permutation=keeps
 //@   opt nopanic=off
 //@   opt inline=off
 //@   opt precall=off
-//@   opt permutation=multiset
 //@   callsite (Writer).Write collect W string: string(arg_p)
+//@   callsite (Writer).Write track nw int: nw + 1
 //@   callsite (Writer).Write never_in_map_iteration_order [C07]: !inmaprange()
 //@   callsite hashBool never_in_map_iteration_order [C07]: !inmaprange()
 //@   callsite hashOptionalBool never_in_map_iteration_order [C07]: !inmaprange()
 //@   callsite hashMap never_in_map_iteration_order [C07]: !inmaprange()
 //@   callsite hashMap collect HM map[string]string: arg_eps
 //@   invariant "range provideKeys" sorted_keys [C07]: forall j int :: 0 < j && j < len(provideKeys) ==> provideKeys[j-1] <= provideKeys[j]
-//@   invariant "range target.DeclaredDependencies()" deps: forall k int :: 0 <= k && k < idx ==> collected(W, target.DeclaredDependencies()[k].String())
-//@   invariant "range target.Hashes" hashes: forall k int :: 0 <= k && k < idx ==> collected(W, target.Hashes[k])
-//@   invariant "range target.AllSources()" srcs: forall k int :: 0 <= k && k < idx ==> collected(W, target.AllSources()[k].String())
-//@   invariant "range target.DeclaredOutputs()" outs: forall k int :: 0 <= k && k < idx ==> collected(W, target.DeclaredOutputs()[k])
-//@   invariant "range target.OptionalOutputs" optional: forall k int :: 0 <= k && k < idx ==> collected(W, target.OptionalOutputs[k])
-//@   invariant "range target.Labels" labels: forall k int :: 0 <= k && k < idx ==> collected(W, target.Labels[k])
-//@   invariant "range target.Secrets" secrets: forall k int :: 0 <= k && k < idx ==> collected(W, target.Secrets[k])
-//@   invariant "range target.Requires" requires_: forall k int :: 0 <= k && k < idx ==> collected(W, target.Requires[k])
-//@   invariant "range target.OutputDirectories" outdirs: forall k int :: 0 <= k && k < idx ==> collected(W, string(target.OutputDirectories[k]))
-//@   invariant "range *target.PassEnv" passenv: forall k int :: 0 <= k && k < idx ==> \
+//@   invariant "range target.DeclaredDependencies()" deps: nw == atloop(nw) + idx && (forall k int :: 0 <= k && k < idx ==> collected(W, target.DeclaredDependencies()[k].String()))
+//@   invariant "range target.Hashes" hashes: nw == atloop(nw) + idx && (forall k int :: 0 <= k && k < idx ==> collected(W, target.Hashes[k]))
+//@   invariant "range target.AllSources()" srcs: nw == atloop(nw) + idx && (forall k int :: 0 <= k && k < idx ==> collected(W, target.AllSources()[k].String()))
+//@   invariant "range target.DeclaredOutputs()" outs: nw == atloop(nw) + idx && (forall k int :: 0 <= k && k < idx ==> collected(W, target.DeclaredOutputs()[k]))
+//@   invariant "range target.OptionalOutputs" optional: nw == atloop(nw) + idx && (forall k int :: 0 <= k && k < idx ==> collected(W, target.OptionalOutputs[k]))
+//@   invariant "range target.Labels" labels: nw == atloop(nw) + idx && (forall k int :: 0 <= k && k < idx ==> collected(W, target.Labels[k]))
+//@   invariant "range target.Secrets" secrets: nw == atloop(nw) + idx && (forall k int :: 0 <= k && k < idx ==> collected(W, target.Secrets[k]))
+//@   invariant "range target.Requires" requires_: nw == atloop(nw) + idx && (forall k int :: 0 <= k && k < idx ==> collected(W, target.Requires[k]))
+//@   invariant "range target.OutputDirectories" outdirs: nw == atloop(nw) + idx && (forall k int :: 0 <= k && k < idx ==> collected(W, string(target.OutputDirectories[k])))
+//@   invariant "range *target.PassEnv" passenv: nw == atloop(nw) + 3 * idx && forall k int :: 0 <= k && k < idx ==> \
 //@      collected(W, deref(target.PassEnv)[k]) && collected(W, os.Getenv(deref(target.PassEnv)[k]))
+//@   callsite hashBool collect HB bool: arg_b
+//@   callsite hashOptionalBool collect HOB bool: arg_b
+//@   invariant "range target.Licences" licences: nw == atloop(nw) + idx && (forall k int :: 0 <= k && k < idx ==> collected(W, target.Licences[k]))
+//@   invariant "range target.AllData()" data: nw == atloop(nw) + idx && (forall k int :: 0 <= k && k < idx ==> collected(W, target.AllData()[k].String()))
+//@   invariant "range target.Test.Outputs" test_outs: nw == atloop(nw) + idx && (forall k int :: 0 <= k && k < idx ==> collected(W, target.Test.Outputs[k]))
+//@   invariant "range target.DeclaredOutputNames()" named_outs: forall a int :: 0 <= a && a < idx ==> collected(W, target.DeclaredOutputNames()[a]) && \
+//@      (forall b int :: 0 <= b && b < len(outs[target.DeclaredOutputNames()[a]]) ==> collected(W, outs[target.DeclaredOutputNames()[a]][b]))
+//@   invariant "range outs[name]" named_outs_inner: nw == atloop(nw) + idx && collected(W, name) && (forall b int :: 0 <= b && b < idx ==> collected(W, outs[name][b]))
+//@   ensures licences [C08]: forall k int :: 0 <= k && k < len(target.Licences) ==> collected(W, target.Licences[k])
+//@   ensures named_outputs [C08]: forall a int :: 0 <= a && a < len(target.DeclaredOutputNames()) ==> collected(W, target.DeclaredOutputNames()[a]) && \
+//@      (forall b int :: 0 <= b && b < len(target.DeclaredNamedOutputs()[target.DeclaredOutputNames()[a]]) ==> \
+//@         collected(W, target.DeclaredNamedOutputs()[target.DeclaredOutputNames()[a]][b]))
+//@   ensures flags [C08]: collected(HB, target.IsBinary) && collected(HB, target.NeedsTransitiveDependencies) && collected(HB, target.OutputIsComplete) && \
+//@      collected(HB, target.Stamp) && collected(HB, target.IsFilegroup) && collected(HB, target.IsTextFile) && collected(HB, target.IsRemoteFile) && \
+//@      collected(HB, target.Local) && collected(HB, target.SrcListFiles) && collected(HB, target.PreBuildFunction != nil) && \
+//@      collected(HB, target.PostBuildFunction != nil)
+//@   ensures optional_flags [C08]: collected(HOB, target.IsSubrepo) && collected(HOB, target.Sandbox) && collected(HOB, target.ExitOnError)
+//@   ensures runtime_data [C08 C11]: runtime ==> (forall k int :: 0 <= k && k < len(target.AllData()) ==> collected(W, target.AllData()[k].String()))
+//@   ensures test_fields [C08 C11]: runtime && target.IsTest() ==> collected(HOB, target.Test.Sandbox) && collected(W, target.Test.ArgsPlaceholder) && \
+//@      (forall k int :: 0 <= k && k < len(target.Test.Outputs) ==> collected(W, target.Test.Outputs[k]))
+//@   invariant "range target.Provides" provide_keys_are_the_domain: len(provideKeys) == idx && \
+//@      (forall k string :: visited(k) ==> (exists j int :: 0 <= j && j < idx && provideKeys[j] == k)) && \
+//@      (forall j int :: 0 <= j && j < idx ==> in(provideKeys[j], target.Provides))
+//@   invariant "range provideKeys" provides_written: forall j int :: 0 <= j && j < idx ==> collected(W, provideKeys[j]) && \
+//@      (forall k int :: 0 <= k && k < len(target.Provides[provideKeys[j]]) ==> collected(W, target.Provides[provideKeys[j]][k].String()))
+//@   invariant "range vs" provides_inner: nw == atloop(nw) + idx && collected(W, lang) && (forall k int :: 0 <= k && k < idx ==> collected(W, vs[k].String()))
+//@   ensures provides [C08]: forall lang string :: in(lang, target.Provides) ==> collected(W, lang) && \
+//@      (forall k int :: 0 <= k && k < len(target.Provides[lang]) ==> collected(W, target.Provides[lang][k].String()))
 //@   ensures label [C08]: collected(W, target.Label.String())
 //@   ensures deps [C08]: forall k int :: 0 <= k && k < len(target.DeclaredDependencies()) ==> collected(W, target.DeclaredDependencies()[k].String())
 //@   ensures declared_hashes [C08]: forall k int :: 0 <= k && k < len(target.Hashes) ==> collected(W, target.Hashes[k])
